@@ -6,7 +6,7 @@
    the correspondence run. *)
 From Coq Require Import List ZArith NArith Bool.
 Import ListNotations.
-From BWPlanner Require Import Terms Rows Clause Store Fetch Plan PatternSpec Current Corr Witnesses RowsProofs FetchProofs PlanProofs SpecProofs.
+From BWPlanner Require Import Terms Rows Clause Store Fetch Plan PatternSpec Current Domain Corr Witnesses RowsProofs FetchProofs PlanProofs SpecProofs Equiv Compose Compose2 Compose3.
 
 (* ---- the specification's optional step is the left outer join of the property text: per row, its extensions by the
    matches that agree on the shared bindings, or exactly one extension in which the clause's new bindings are NULL *)
@@ -76,6 +76,53 @@ Theorem C10_join_range_unreachable :
     forall rows, left_optional_join (fix9 e) t (mkTable (clause_bindings c) rows) <> Ok LojRange.
 Proof. exact process_clause_join_disjoint. Qed.
 Print Assumptions C10_join_range_unreachable.
+
+(* ---- the composition over whole patterns.  D10 (boolean; Domain.d10_clause, Domain.D10) = D3 of C03 with OPTIONAL allowed:
+     environment: store compares predicate kinds, literal.Parse rejects unknown types, repairs F9, F14, Foid, F24 in;
+     graphs without key-duplicates; output bindings pairwise different;
+     at least one clause, the first not OPTIONAL (the grammar guarantees it), every clause - OPTIONAL or not, sharing 0, 1 or more
+       bindings with the rows built so far - not fully specified, no interval / bound binding, no ID alias on the object, an id only
+       with an anchor binding, pairwise different binding names inside the clause, at least one binding.
+   On D10 the planner's result is the specification's sequence of steps (spec_step: conjunctive step for a plain clause, left outer
+   join with NULL extension for an OPTIONAL one), row by row, cells up to the zone in which an instant is written. *)
+Theorem C10_select_is_left_join_partial :
+  forall e gs glo cs outs projs, D10 e gs cs outs = true ->
+    exists bs rows, execute e gs glo cs outs projs = Ok (bs, rows) /\
+                    Forall2 orow_equiv rows (spec_select glo gs cs outs projs).
+Proof. exact execute_is_spec_select10. Qed.
+Print Assumptions C10_select_is_left_join_partial.
+
+(* the same before projection: the table after the pattern = fold of the specification's steps over the clauses *)
+Theorem C10_pattern_is_steps_partial :
+  forall e gs glo cs outs, D10 e gs cs outs = true ->
+    exists t, process_pattern e gs glo cs empty_table = Ok t /\
+              Forall2 row_equiv (trows t) (fold_left (fun mus c => spec_step glo gs c mus) cs [[]]).
+Proof. exact pattern_is_steps10. Qed.
+Print Assumptions C10_pattern_is_steps_partial.
+
+(* corollary over whole patterns: appending an OPTIONAL clause to a pattern never removes a row - every row of the shorter
+   pattern is a restriction (up to instant equality) of a row of the longer one, and there are at least as many rows *)
+Theorem C10_never_removes_pattern_partial :
+  forall e gs glo cs c outs t1 t2,
+    D10 e gs cs outs = true -> D10 e gs (cs ++ [c]) outs = true -> c_opt c = true ->
+    process_pattern e gs glo cs empty_table = Ok t1 ->
+    process_pattern e gs glo (cs ++ [c]) empty_table = Ok t2 ->
+    (length (trows t1) <= length (trows t2))%nat /\
+    forall r, In r (trows t1) -> exists r', In r' (trows t2) /\ sub_equiv r r'.
+Proof. exact optional_never_removes_pattern. Qed.
+Print Assumptions C10_never_removes_pattern_partial.
+
+(* D10 is inhabited by a pattern with two OPTIONAL clauses in sequence: the first shares a binding with the rows built so far
+   (and matches for one row only), the second is disjoint and matches nothing: both rows survive, NULL-extended *)
+Example C10_D10_example :
+  let q := w_d10_example (current true false) in
+  D10 (q_cfg q) (q_graphs q) (q_clauses q) (q_outs q) = true /\
+  map c_opt (q_clauses q) = [false; true; true] /\
+  exists bs r1 r2, run_model q = Ok (bs, [r1; r2]) /\ In (Some CNull) r1 /\ In (Some CNull) r2 /\ length (run_spec q) = 2%nat.
+Proof.
+  vm_compute. split; [reflexivity|]. split; [reflexivity|]. eexists _, _, _. split; [reflexivity|].
+  split; [|split; [|reflexivity]]; cbn; auto 10.
+Qed.
 
 (* hypotheses are satisfiable: on the F9 witness the current model keeps the row and NULL-extends it *)
 Example C10_example :
